@@ -123,15 +123,16 @@ func New(config ...Config) fiber.Handler {
 		// TODO(allocation optimization): try to minimize the allocation from 2 to 1
 		key := cfg.KeyGenerator(c) + "_" + requestMethod
 
-		// Get entry from pool
+		// Lock entry
+		mux.Lock()
+
+		// Get entry from pool. This happens under the lock: the expiration bookkeeping
+		// below (heap, storedBytes) must see every stored entry exactly once.
 		e := manager.get(key)
 		if e != nil && e.exp == 0 {
 			// nothing is stored under this key (an external storage hands out an empty item)
 			e = nil
 		}
-
-		// Lock entry
-		mux.Lock()
 
 		// Get timestamp
 		ts := atomic.LoadUint64(&timestamp)
